@@ -75,9 +75,23 @@ pub fn gtx_sig() -> BoxedStrategy<GTx> {
         .boxed()
 }
 
+/// A fresh library object holding the transaction `r`. The route is chosen by the contents: wire bytes, hex text,
+/// or wire bytes followed by a trip through the JSON or the CBOR form (lossless per C18; a trip that fails or does
+/// not reproduce the bytes is C18's business and falls back to the plain parse).
 pub fn parse_fresh(r: &RTx) -> Result<Transaction, Failure> {
     let b = wire::encode_tx(r);
-    lib_call("from_bytes", || Transaction::from_bytes(&b))?.map_err(|e| failure("wellformed_accepted", format!("Err({})", e), "Ok: canonical encoding of a generated transaction"))
+    let plain = lib_call("from_bytes", || Transaction::from_bytes(&b))?.map_err(|e| failure("wellformed_accepted", format!("Err({})", e), "Ok: canonical encoding of a generated transaction"))?;
+    let route = b.iter().fold(0u8, |a, x| a.wrapping_mul(31).wrapping_add(*x)) % 8;
+    let other = match route {
+        1 => lib_call("from_hex", || Transaction::from_hex(&hex::encode(&b)))?.ok(),
+        2 => lib_call("json trip", || plain.to_json_string().ok().and_then(|j| Transaction::from_json_string(&j).ok()))?,
+        3 => lib_call("cbor trip", || plain.to_compact_bytes().ok().and_then(|c| Transaction::from_compact_bytes(&c).ok()))?,
+        _ => None,
+    };
+    match other {
+        Some(t) if t.to_bytes().ok().as_deref() == Some(&b[..]) => Ok(t),
+        _ => Ok(plain),
+    }
 }
 
 pub fn nonpal(v: u32) -> bool {
